@@ -83,6 +83,13 @@ CHECKS = {
                      "Network: MakeFree(s) and Isolate edits of SurveySession.tla with the expected adjustability from the datum-defect table; outcome, "
                      "removed points and results must be equal for the four algorithms, and no output may contain a non-finite number.",
                 note="several genuine defects are recorded as known findings (null_space() stripping); the datum-defect table covers the templates only", ref="8/C20"),
+    "C05": dict(cat="exploration", technique="TLC-enumerated lattice configurations with exact rational partial derivatives, compared with project_equations()",
+                text="Linearization.tla enumerates observation type x Pythagorean offsets (all octants) x vertical offsets x 8 axes-xy x 2 angle senses x "
+                     "free/fixed masks x observed-minus-computed values incl. ones that force the wrap at 200/400 gon, and states the exact rational "
+                     "partial derivatives written from the observation functions. harness/drv_lin dumps LocalNetwork::project_equations(A,b,w) of the "
+                     "materialised input; every coefficient (chain rule to gama's internal, possibly y-flipped, axes), the orientation coefficient, the "
+                     "index assignment (bijection, y follows x) and the right-hand side are compared to 1e-9.",
+                note="trusted: factor 2000/pi (rad/m -> cc/mm), textbook observation values; vector / observed-coordinate rows only through C06/C07/C13", ref="8/C05"),
 }
 
 NOT_APPLICABLE = []
